@@ -293,9 +293,24 @@ def pts_seam():
     return st.builds(mk, st.integers(0, 11), st.integers(0, 4), st.booleans(), _unit, _unit, st.booleans())
 
 
+def pts_round():
+    """Round coordinates and their immediate surroundings: longitude and latitude on multiples of 7.5 degrees (equator,
+    prime meridian, tropics-like parallels: where trigonometric terms of series and rotations vanish or peak, and where
+    users put test points), each optionally displaced by 1e-13..1e-6 degrees."""
+    def mk(i, j, ui, uj, si, sj, how):
+        lon = -180.0 + 7.5 * i
+        lat = -90.0 + 7.5 * j
+        if how & 1:
+            lon += (1 if si else -1) * 10.0 ** (-13 + 7 * ui)
+        if how & 2:
+            lat += (1 if sj else -1) * 10.0 ** (-13 + 7 * uj)
+        return _pt(max(-180.0, min(180.0, lon)), lat, "round")
+    return st.builds(mk, st.integers(0, 48), st.integers(0, 24), _unit, _unit, st.booleans(), st.booleans(), st.integers(0, 3))
+
+
 def pts_base():
     return st.one_of(pts_uniform(), pts_polar(), pts_frame_nbhd(), pts_frame_nbhd(), pts_antimeridian(),
-                     pts_frame_exact(), pts_pole_exact(), pts_face_edge(), pts_face_edge(), pts_seam())
+                     pts_frame_exact(), pts_pole_exact(), pts_face_edge(), pts_face_edge(), pts_seam(), pts_round())
 
 
 def pts_wrapped():
